@@ -20,7 +20,7 @@ Print Assumptions C10_no_escape.
 
 (* ... and the record is consumed: it moves to the transit buffer with exactly the notifications of
    its own formatting outcome (one for a failing formatter, none otherwise) *)
-Theorem C10_record_consumed : forall K lim tn x e rest q1 off, c_catch_all K = true ->
+Theorem C10_record_consumed : forall K lim tn x e rest q1 off, c_catch_all K = true -> u_blocked K x = false ->
   prepare_read ideal (c_cap K) (q x) = (q1, Some off) -> qev x = e :: rest ->
   (negb (c_grace K =? 0) && (tn <? ets e)) = false ->
   exists x1 total notes, read_loop K 1 lim tn x 0 [] = (x1, total, notes, false) /\
@@ -63,7 +63,7 @@ Print Assumptions C10_bt_replay_clears.
 Definition K_d4 (ca : bool) : cfg :=
   {| c_cap := 1024; c_batch := 51; c_pub := {| on_batch := true; on_drain := true |}; c_dropping := false;
      c_tinit := 4; c_soft := 4; c_hard := 8; c_grace := 0; c_bits := 32; c_refresh2 := true; c_catch_all := ca;
-     c_report_first := true; c_bt := {| reset_index_in_process := true; cap0_guard := true |}; c_bt_catch := true; c_flush_iv := 0 |}.
+     c_report_first := true; c_bt := {| reset_index_in_process := true; cap0_guard := true |}; c_bt_catch := true; c_flush_iv := 0; c_follow := true |}.
 Definition d4_cmds : list cmd :=
   [CLog 0 (mk_ev 1 0 4 50 0) false; CLog 0 (mk_ev 2 0 4 50 2) false; CLog 0 (mk_ev 3 0 4 50 0) false] ++ repeat (CPoll []) 6.
 Definition d4_state (ca : bool) : st :=
